@@ -309,6 +309,11 @@ func funcServes(fc *contract.Func, tags map[string]bool) bool {
 	if tags["SAFETY"] || tags["FRAME"] {
 		return true
 	}
+	for _, p := range strings.Fields(fc.Opts["props"]) {
+		if tags[p] {
+			return true
+		}
+	}
 	chk := func(cs []contract.Clause) bool {
 		for _, c := range cs {
 			for _, p := range c.Props {
